@@ -221,3 +221,33 @@ Definition required_ok (rs : list route) (p : string * string) : bool :=
   end.
 Definition check_routes (rs : list route) : bool :=
   forallb route_ok rs && forallb (required_ok rs) required.
+
+(* ------------------------------------------------------------------ *)
+(* the handler chain of cmd/shovel/main.go between the server and the  *)
+(* mux (e.g. log(true, mux)), outermost wrapper first: for each        *)
+(* wrapper, which parts of the request it writes before it calls the   *)
+(* inner handler ("*" = the whole request)                             *)
+
+Record wrapper := { wname : string; writes_before : list string }.
+
+(* what Authn's decision reads from the request: the TCP peer address and
+   the Cookie header *)
+Definition authn_reads : list string := ["RemoteAddr"; "Header"]%string.
+
+Definition wrapper_ok (w : wrapper) : bool :=
+  forallb (fun f => negb (mem f authn_reads) && negb (String.eqb f "*")) (writes_before w).
+Definition check_chain (ws : list wrapper) : bool := forallb wrapper_ok ws.
+
+(* a request as a valuation of its parts; a wrapper may change exactly the
+   parts it writes (anything at all when it writes "*") *)
+Definition req := string -> N.
+Definition wrapper_rel (w : wrapper) (r r' : req) : Prop :=
+  mem "*"%string (writes_before w) = false /\
+  forall f, mem f (writes_before w) = false -> r' f = r f.
+Definition wrapper_sem (w : wrapper) (r r' : req) : Prop :=
+  mem "*"%string (writes_before w) = true \/ wrapper_rel w r r'.
+Fixpoint chain_sem (ws : list wrapper) (r r' : req) : Prop :=
+  match ws with
+  | [] => r' = r
+  | w :: rest => exists m, wrapper_sem w r m /\ chain_sem rest m r'
+  end.
